@@ -409,6 +409,10 @@ class Variable:
         rnd = self._rnd
         if dt.name in _FLOATS:
             rnd = _rnd_add(rnd, dt)
+        if dt.name == 'float32' and self._dtype.name != 'float32':
+            # a wider value is materialised in single precision: its magnitude must fit the float32 range (harness obligation)
+            for idx_ in np.ndindex(a.shape):
+                F32_LOG.append(a[idx_])
         return self._new(a.copy(), dtype=dt, var=None if self._v is None else self._v.copy(), rnd=rnd)
 
     def to(self, *, unit=None, dtype=None, copy=True):
@@ -694,6 +698,9 @@ def _as_arr(x):
     a = np.empty((), dtype=object)
     a[()] = x
     return a
+
+
+F32_LOG: list = []
 
 
 def _rnd_add(rnd, dt):
